@@ -316,6 +316,32 @@ class Ceremony:
         w.outcome('signed', cid=c.cid, signers=sorted(c.signers), verified=bool(getattr(c.t, 'verified', False)))
         self.check_copy(c, 'sign')
 
+    def op_sign_round(self):
+        """The missing cosigners sign one per call in a drawn order, the copy is verified after every call (what a
+        coordinator does while collecting signatures)."""
+        ch, w = self.ch, self.w
+        if self.single:
+            return self.op_sign()
+        live = [c for c in self.copies if not c.sent and not getattr(c, 'parsed', False) and len(c.signers) < self.m]
+        if not live:
+            return self.op_sign()
+        c = live[ch.index('round_copy', len(live))]
+        rest = [j for j in range(self.n) if j not in c.signers]
+        order = [rest[i] for i in ch.perm('round_order', len(rest))]
+        for j in order:
+            if len(c.signers) >= self.m:
+                break
+            w.op('sign', cid=c.cid, by='cosigner%d' % j, round=True)
+            hk = self.BK.HDKey(self.xprv(self.masters[j]), network=self.network)
+            ok, _ = self.call('sign_ext', lambda: c.t.sign(hk))
+            if ok:
+                c.signers.add(j)
+                self.add_holder(c)
+                if c.context_tampered:
+                    c.resigned = True
+            w.outcome('signed', cid=c.cid, signers=sorted(c.signers), verified=bool(getattr(c.t, 'verified', False)))
+            self.check_copy(c, 'sign')
+
     def add_holder(self, c):
         """WalletTransaction.sign(keys) also signs with the private keys the holding wallet has for the inputs."""
         if isinstance(c.t, self.BW.WalletTransaction) and c.holder != 'ext':
@@ -825,10 +851,10 @@ class Ceremony:
         ch = self.ch
         if self.focus == 'C10':
             table = [('agree', 5), ('fund', 4), ('create', 6), ('sign', 7), ('handoff', 8), ('deliver', 3), ('send', 5),
-                     ('mine', 1), ('tamper', 1)]
+                     ('mine', 1), ('tamper', 1), ('sign_round', 3)]
         else:
             table = [('fund', 4), ('create', 6), ('sign', 7), ('handoff', 4), ('deliver', 1), ('tamper', 9), ('roundtrip', 5),
-                     ('send', 2), ('mine', 1), ('tamper_wire', 5)]
+                     ('send', 2), ('mine', 1), ('tamper_wire', 5), ('sign_round', 4)]
         kind = ch.weighted('op', table)
         getattr(self, 'op_' + kind)()
 
